@@ -79,7 +79,10 @@ def replay(spec):
         d1.py_set_parent(m)
         d2.py_set_parent(m)
         for name, f in (("pickle", lambda x: pickle.loads(pickle.dumps(x))), ("deepcopy", copy.deepcopy)):
-            for label, obj in (("a mid-tree cell", m), ("a leaf cell", d1)):
+            lone2, lone1, kid = mk(40.0), mk(50.0), mk(60.0)
+            lone2.py_set_daughters(None, kid)           # tracking data: the sister in slot 1 was lost
+            lone1.py_set_daughters(kid, None)
+            for label, obj in (("a mid-tree cell", m), ("a leaf cell", d1), ("a cell with a daughter in the second slot only", lone2), ("a cell with a daughter in the first slot only", lone1)):
                 try:
                     new = f(obj)
                 except Exception as e:
